@@ -75,7 +75,12 @@ def run_plain(ctx, rng, spec, start, script, host_cls=HsmEventProcessor, spied=F
     go, ga = split(run.log)
     ctx.count('steps')
     if go != eo:
-      return [('C02', 'C02/offer-sequence-differs', 'event %s in %s: offers %r expected %r' % (sn, names[prev], go, eo), wit_k)]
+      out = [('C02', 'C02/offer-sequence-differs', 'event %s in %s: offers %r expected %r' % (sn, names[prev], go, eo), wit_k)]
+      if kind == 'tran' and (ga != ea or chart.state_name != names[model.cur]):
+        # the same step also ran the wrong exits / entries / inits (or none): C01's business as well
+        out.append(('C01', 'C01/transition-actions-differ', 'event %s in %s (S=%s T=%s): actions %r rest %s, expected %r rest %s (the event was also offered to the wrong states: %r)' % (
+          sn, names[prev], names[S], names[T], ga, chart.state_name, ea, names[model.cur], go), wit_k))
+      return out
     if kind == 'tran':
       ctx.count('transitions')
       tc = cg.topo_class(spec, S, T)
